@@ -295,6 +295,49 @@ var units = []struct {
 		again := reflect.ChanOf(reflect.RecvDir, reflect.ArrayOf(7, base))
 		p("cached ChanOf: " + again.String())
 	}},
+	{"embed-ro", func() {
+		for _, x := range []any{q.MkOuterV(), q.MkOuterP()} {
+			v := reflect.ValueOf(x).Elem()
+			e := v.Field(0)
+			if e.Kind() == reflect.Pointer {
+				p("outer " + v.Type().String()) // the embedded pointer would print as an address
+			} else {
+				p("outer " + v.Type().String() + " " + fmt.Sprintf("%v | %+v", x, x))
+			}
+			p("embedded canset=" + b2s(e.CanSet()) + " canif=" + b2s(e.CanInterface()) + " canaddr=" + b2s(e.CanAddr()))
+			if e.Kind() == reflect.Pointer {
+				e = e.Elem()
+			}
+			for i := 0; i < e.NumField(); i++ {
+				f := e.Field(i)
+				s := "inner." + e.Type().Field(i).Name + " canset=" + b2s(f.CanSet()) + " canif=" + b2s(f.CanInterface()) + " canaddr=" + b2s(f.CanAddr())
+				try("interface", func() {
+					if f.CanInterface() {
+						s += " val=" + fmt.Sprint(f.Interface())
+					}
+				})
+				p(s)
+			}
+			for _, name := range []string{"Temp", "Err", "N", "Z"} {
+				f := v.FieldByName(name)
+				p("byname " + name + " canset=" + b2s(f.CanSet()) + " canif=" + b2s(f.CanInterface()))
+			}
+			try("set", func() {
+				v.FieldByName("N").SetInt(41)
+				v.FieldByName("Temp").Set(reflect.ValueOf(q.Celsius(1.5)))
+				p("after set " + fmt.Sprint(v.FieldByName("N").Interface(), v.FieldByName("Temp").Interface()))
+			})
+			func() { // the panic text names the calling method under go and cannot under llgo: compare the fact only
+				defer func() {
+					if recover() != nil {
+						p("set of unexported field panicked")
+					}
+				}()
+				e.FieldByName("low").SetInt(1)
+				p("set of unexported field succeeded")
+			}()
+		}
+	}},
 	{"call-ret-overflow", func() {
 		// results larger than 16 bytes must live in their own buffer: they have to survive later allocations
 		meth := reflect.ValueOf(q.Ret3{A: 1}).MethodByName("Three")
@@ -397,10 +440,14 @@ var units = []struct {
 	{"call-hasempty", func() { call(func(e q.HasEmpty) string { return fmt.Sprint(e) }) }},
 	{"call-retstruct", func() { call(func(x int) q.Big { return q.Big{A: int64(x), S: "s"} }) }},
 	{"call-retmulti", func() { call(func(x int) (int, string, float64, bool) { return x, "s", 1.5, true }) }},
-	{"call-retmap", func() { call(func(x int) (map[string]int, chan int, func()) { return map[string]int{"a": x}, nil, nil }) }},
+	{"call-retmap", func() {
+		call(func(x int) (map[string]int, chan int, func()) { return map[string]int{"a": x}, nil, nil })
+	}},
 	{"call-variadic", func() { call(func(s string, xs ...int8) string { return fmt.Sprint(s, xs) }) }},
 	{"call-many", func() {
-		call(func(a, b, c, d, e, f, g, h, i, j int, x, y float64) string { return fmt.Sprint(a, b, c, d, e, f, g, h, i, j, x, y) })
+		call(func(a, b, c, d, e, f, g, h, i, j int, x, y float64) string {
+			return fmt.Sprint(a, b, c, d, e, f, g, h, i, j, x, y)
+		})
 	}},
 	// ---- methods on directly-stored (pointer-shaped) types and zero-size receivers
 	{"meth-map", func() { meth(q.NM{"a": 1}, "Size") }},
